@@ -3,7 +3,10 @@ package main
 import (
 	"fmt"
 	"math/big"
+	"sort"
 	"strings"
+
+	sdk "github.com/cosmos/cosmos-sdk/types"
 )
 
 // C06: L2 credits each L1 deposit exactly once, in order, under any relay schedule.
@@ -229,6 +232,117 @@ func genC06(seed uint64, tier string, outdir string) *Report {
 		}
 		texts = append(texts, c.Coq())
 	}
+	c06Reentrancy(rep, seed, tier)
 	writeShards(outdir, "C06", l2CaseHeader, "run_l2case", "l2case", texts, 16, rep)
 	return rep
+}
+
+// (c) hook re-entrancy (monitor-only: a hook tx carrying MsgFinalizeTokenDeposit is outside the
+// model's hook language).  A deposit at the expected sequence n from executor A whose hook payload
+// is a well-signed tx of another executor B (or of a non-executor) that itself finalizes a
+// deposit of sequence n (same), n-1 (stale) or n+1 (next), followed by ordinary deliveries of
+// n, n+1, n+2.  Judged from the events alone: over the whole history the finalize_token_deposit
+// events - including those emitted from inside hooks - carry every sequence exactly once,
+// contiguously; NextL1Sequence = 1 + number of processed sequences; supply and balances grow by
+// exactly the credited amounts.
+func c06Reentrancy(rep *Report, seed uint64, tier string) {
+	bases := []int{0, 2}
+	if tier == "thorough" {
+		bases = []int{0, 1, 2, 5}
+	}
+	caseNo := 0
+	for _, pre := range bases {
+		for _, hookSigner := range []uint64{2, 5} { // executor B, non-executor
+			for _, delta := range []int{-1, 0, 1} {
+				for _, innerAmt := range []int64{11, 0} {
+					caseNo++
+					sc := NewL2Scenario(seed*31337+uint64(caseNo), 200000+caseNo, false)
+					e, c := sc.Env, sc.Case
+					A := e.User(1).Str
+					for q := 0; q < pre; q++ {
+						if r := c.Do(sc.Deposit(A, uint64(q+1), e.User(4).Str, 0, big.NewInt(10), Hook{Kind: "none"})); !r.OK {
+							panic("setup deposit failed: " + r.Err)
+						}
+					}
+					n := uint64(pre + 1)
+					innerSeq := uint64(int(n) + delta)
+					inner := sc.Deposit(e.User(hookSigner).Str, innerSeq, e.User(6).Str, 0, big.NewInt(innerAmt), Hook{Kind: "none"})
+					hook := e.MakeHookTxMsgs(hookSigner, e.AccSeq(hookSigner), []sdk.Msg{e.RealMsg(inner)},
+						fmt.Sprintf("MsgFinalizeTokenDeposit seq=%d by user %d to user 6 amount %d", innerSeq, hookSigner, innerAmt))
+					initObs := e.L2Obs(c.Track, ExecResult{OK: true})
+					if pre > 0 {
+						initObs = nil
+					}
+					c.Do(sc.Deposit(A, n, e.User(4).Str, 0, big.NewInt(7), hook))
+					// the relayer then delivers n (again), n+1, n+2 in order
+					for _, sq := range []uint64{n, n + 1, n + 2} {
+						c.Do(sc.Deposit(A, sq, e.User(5).Str, 0, big.NewInt(int64(20+sq)), Hook{Kind: "none"}))
+					}
+					c06EventCheck(rep, c)
+					_ = initObs
+					rep.Ops += len(c.Ops)
+					rep.CountCase(strings.Join(opsCoq(c.Ops), "\n"), true)
+					rep.Hist(fmt.Sprintf("reentrant-hook:signer%d:delta%+d", hookSigner, delta))
+				}
+			}
+		}
+	}
+	rep.Notes = append(rep.Notes, fmt.Sprintf("%d hook re-entrancy histories (hook tx of another executor / a non-executor finalizing sequence n-1, n, n+1), monitor-only", caseNo))
+}
+
+// c06EventCheck: the event-based statement of "exactly once, in order" for a history from a fresh chain.
+func c06EventCheck(rep *Report, c *L2Case) {
+	tr := c.Track
+	expected := uint64(1)
+	credited := make([]*big.Int, len(tr.Denoms))
+	for i := range credited {
+		credited[i] = new(big.Int)
+	}
+	seen := map[uint64]int{}
+	viol := func(i int, sig, what string) {
+		rep.Violate(Violation{Case: c.ID, Step: i, What: what, Sig: sig, Ops: opsCoq(c.Ops[:i+1])})
+	}
+	for i := range c.Ops {
+		cur := l2ViewOf(tr, c.Obs[i])
+		var seqs []uint64
+		for _, ev := range parseL2EvList(c.Results[i].Events) {
+			if !ev.IsDep {
+				continue
+			}
+			seqs = append(seqs, ev.Seq)
+			seen[ev.Seq]++
+			if seen[ev.Seq] > 1 {
+				viol(i, "C06:processed-twice", fmt.Sprintf("L1 sequence %d was processed %d times (finalize_token_deposit events, incl. those emitted inside hooks)", ev.Seq, seen[ev.Seq]))
+			}
+			if di := l2IdxS(tr.Denoms, ev.Denom); di >= 0 && ev.Success {
+				credited[di].Add(credited[di], ev.Amt)
+			}
+		}
+		// within one message the hook's events precede the handler's own: compare as a set
+		if len(seqs) > 1 {
+			rep.Hist("reentrant-hook:deposit-processed-inside-hook")
+		}
+		sort.Slice(seqs, func(a, b int) bool { return seqs[a] < seqs[b] })
+		for _, sq := range seqs {
+			if sq != expected && seen[sq] == 1 {
+				viol(i, "C06:out-of-order", fmt.Sprintf("L1 sequence %d processed while %d was expected", sq, expected))
+			}
+			if sq >= expected {
+				expected = sq + 1
+			}
+		}
+		if cur.N1 != uint64(len(seen))+1 || cur.N1 != expected {
+			viol(i, "C06:next-seq", fmt.Sprintf("NextL1Sequence = %d, but %d distinct sequences were processed (highest %d)", cur.N1, len(seen), expected-1))
+		}
+		// supply and total balances = what the events say was credited (no user withdrawals here; refunds net zero)
+		for di := range tr.Denoms {
+			sum := new(big.Int)
+			for a := range tr.Accts {
+				sum.Add(sum, cur.Bal[a][di])
+			}
+			if tr.Denoms[di] != "unative" && (cur.Sup[di].Cmp(credited[di]) != 0 || sum.Cmp(credited[di]) != 0) {
+				viol(i, "C06:credit-sum", fmt.Sprintf("supply %s / balances %s of %s, credited by events %s", cur.Sup[di], sum, tr.Denoms[di], credited[di]))
+			}
+		}
+	}
 }
